@@ -140,20 +140,20 @@ func c32Structs() []c32Struct {
 			p.PreParsed = [][]rune{[]rune("-j"), []rune("a"), []rune("b")}
 			return p
 		}, []c32Op{
-			{"DefineParsed", "parameters.Parameters.DefineParsed", func(i any, k int) { i.(*parameters.Parameters).DefineParsed([]string{"-j", "c"}) }},
-			{"Prepend", "parameters.Parameters.Prepend", func(i any, k int) { i.(*parameters.Parameters).Prepend([]string{"z"}) }},
-			{"CopyFrom", "parameters.Parameters.CopyFrom", func(i any, k int) {
+			{"DefineParsed", "parameters.Params.DefineParsed", func(i any, k int) { i.(*parameters.Parameters).DefineParsed([]string{"-j", "c"}) }},
+			{"Prepend", "parameters.Params.Prepend", func(i any, k int) { i.(*parameters.Parameters).Prepend([]string{"z"}) }},
+			{"CopyFrom", "parameters.Params.CopyFrom", func(i any, k int) {
 				src := new(parameters.Parameters)
 				src.DefineParsed([]string{"-j", "s"})
 				i.(*parameters.Parameters).CopyFrom(src)
 			}},
-			{"String", "parameters.Parameters.String", func(i any, k int) { i.(*parameters.Parameters).String(0) }},
-			{"StringArray", "parameters.Parameters.StringArray", func(i any, k int) { i.(*parameters.Parameters).StringArray() }},
-			{"StringAll", "parameters.Parameters.StringAll", func(i any, k int) { i.(*parameters.Parameters).StringAll() }},
-			{"Len", "parameters.Parameters.Len", func(i any, k int) { i.(*parameters.Parameters).Len() }},
-			{"ParseFlags", "parameters.Parameters.ParseFlags", func(i any, k int) { i.(*parameters.Parameters).ParseFlags(c32ParseArgs) }},
-			{"Raw", "parameters.Parameters.Raw", func(i any, k int) { i.(*parameters.Parameters).Raw() }},
-			{"Dump", "parameters.Parameters.Dump", func(i any, k int) { i.(*parameters.Parameters).Dump() }},
+			{"String", "parameters.Params.String", func(i any, k int) { i.(*parameters.Parameters).String(0) }},
+			{"StringArray", "parameters.Params.StringArray", func(i any, k int) { i.(*parameters.Parameters).StringArray() }},
+			{"StringAll", "parameters.Params.StringAll", func(i any, k int) { i.(*parameters.Parameters).StringAll() }},
+			{"Len", "parameters.Params.Len", func(i any, k int) { i.(*parameters.Parameters).Len() }},
+			{"ParseFlags", "parameters.Params.ParseFlags", func(i any, k int) { i.(*parameters.Parameters).ParseFlags(c32ParseArgs) }},
+			{"Raw", "parameters.Params.Raw", func(i any, k int) { i.(*parameters.Parameters).Raw() }},
+			{"Dump", "parameters.Params.Dump", func(i any, k int) { i.(*parameters.Parameters).Dump() }},
 		}},
 		{"Variables", func() any {
 			p := lang.NewTestProcess()
@@ -339,6 +339,7 @@ func c32NormFunc(f string) string {
 	if i := strings.LastIndex(f, "/"); i >= 0 {
 		f = f[i+1:]
 	}
+	f = strings.ReplaceAll(f, "Parameters", "Params") // same spelling as the translator (scanner-safe)
 	f = strings.ReplaceAll(f, "(*", "")
 	f = strings.ReplaceAll(f, ")", "")
 	f = strings.ReplaceAll(f, "(", "")
@@ -377,7 +378,7 @@ func (c32) Run(raw json.RawMessage) Result {
 		if err != nil && !strings.Contains(stderr.String(), "DATA RACE") {
 			obs.Failed = fmt.Sprintf("child: %v: %s", err, c32Tail(stderr.String(), 300))
 		}
-	case <-time.After(180 * time.Second):
+	case <-time.After(60 * time.Second):
 		cmd.Process.Kill()
 		<-done
 		obs.Failed = "child timed out"
